@@ -2,6 +2,8 @@
 """C04 - raw VBI decoding recovers every standard signal bit-exactly, on the right line.
 
 Round 2 theorems: lean/ZvbiModel/Props/C04Bits.lean (lemmas Slicer/Bits*.lean, Rawdec/Svc*.lean).
+Round 3 theorems: lean/ZvbiModel/Props/C04Hist.lean (Rawdec/Blank*.lean: the per-line prediction state over histories of
+decode calls; Rawdec/Window.lean: the CRI search range covers the sampled window; translate/gen_rawdecflags.py).
 Model: lean/ZvbiModel/Rawdec/{Model,SliceModel,Spec}.lean (pattern/job bookkeeping of raw_decoder.c and
 sampling_par.c as a state machine over add/remove/decode histories; value-level models of the three bit
 slicers on an abstract sample sequence).  Theorems: lean/ZvbiModel/Props/C04.lean.
@@ -71,6 +73,41 @@ def drift_bits(sid, rate):
     frac = x - int(x)
     nbits = FRCBITS.get(sid, 6) + (14 if sid == 0x400 else SVC[sid]["n"] * 8)
     return frac / 256.0 * nbits / (rate / float(b))
+
+
+def sig_span(sid):
+    """(start, end) in us after 0H of everything the transmitter (io-sim, which follows the standards' timing) emits for
+    service `sid` on its line - independent of the decoder.  Teletext (all systems): run-in rises from 12.0 us - 13 T,
+    16 run-in + 8 framing + 8n payload bits, the trailing edge of the last bit is over 8n + 25 bit periods T later;
+    VPS: 12.5 us - 0.1 us, 240 bi-phase elements at 5 MHz; WSS: 11.0 us - 0.1 us, 29 + 24 + 14 * 6 + 1 elements at 5 MHz;
+    Caption (EIA 608-B, bit period D): run-in from 10.5 us - D/4, the falling edge of the last data bit ends
+    25.5 D after 10.5 us."""
+    b = float(BITRATE[sid])
+    if sid in TTX:
+        t = 12.0 - 13e6 / b
+        return t, t + (SVC[sid]["n"] * 8 + 25) * 1e6 / b
+    if sid in (0x4, 0x1000):
+        return 12.4, 12.4 + 240 / 5.0
+    if sid == 0x400:
+        return 10.9, 10.9 + (29 + 24 + 14 * 6 + 1) / 5.0
+    D = 1e6 / b
+    return 10.5 - 0.25 * D, 10.5 + 25.5 * D
+
+
+# margins (us) the window generators keep around the emission: first sample at least WIN_START before the run-in begins,
+# last sample WIN_END after the emission ends (0 = the minimum window; NOTES/C04.md round 3)
+WIN_START = 0.0
+WIN_END = (0.0, 0.02, 0.05, 0.1, 0.2, 0.4, 0.8, 1.5, 3.0)
+
+
+def window_contains(sp, sid, m0=0.0, m1=0.0):
+    """the sampled window of `sp` contains the whole nominal signal of `sid` with margins m0/m1 (us): the first sample
+    is taken no later than the first run-in edge, the LAST SAMPLE (instant (offset + spl - 1) / rate) no earlier than the
+    end of the last payload bit"""
+    a, b = sig_span(sid)
+    start = sp.offset * 1e6 / sp.rate
+    last = (sp.offset + sp.spl - 1) * 1e6 / sp.rate
+    return start <= a - m0 and last >= b + m1
 
 
 def repo_flag(name):
@@ -189,7 +226,7 @@ def parse_recs(tokens):
 class C04(verif.Spec):
     prop = "C04"
     comp = "rawdec"
-    lean_modules = ["ZvbiModel.Props.C04", "ZvbiModel.Props.C04Bits"]
+    lean_modules = ["ZvbiModel.Props.C04", "ZvbiModel.Props.C04Bits", "ZvbiModel.Props.C04Hist"]
     harness = "rawdec_harness"
     timeout_per_case = 6.0
     partial_note = ("proved: the discrete logic (pattern/job bookkeeping invariant over every add/remove/decode history, "
@@ -197,7 +234,10 @@ class C04(verif.Spec):
                     "nothing beyond count for every slicer behaviour, payload stage of all three slicers exact in all four "
                     "endian modes under the eye-open hypothesis, CRI search window exact, line/field/memory line of every row, "
                     "services = union of pairwise disjoint job ids, <= 7 jobs, remove leaves no requested id - all histories of "
-                    "the repaired code). NOT proved: that io-sim's floating point waveform satisfies eye-open for every "
+                    "the repaired code; from every reachable armed pattern and over every history of decode calls: no line is "
+                    "ever skipped, the records of a frame are a function of that frame's image and do not depend on earlier "
+                    "frames [hypotheses: slicing independent of the adaptive threshold, at most one job matches a line]; the "
+                    "CRI search range of add_services covers every accepted window for every table row). NOT proved: that io-sim's floating point waveform satisfies eye-open for every "
                     "rate, offset, format and payload - sampled by the oracle (frame/decode/slice ops)")
     assumptions = ["IEEE double comparisons of _vbi_sampling_par_permit_service (signal length vs sampled length) agree with "
                    "exact rational arithmetic (validated by correspondence)",
@@ -212,11 +252,22 @@ class C04(verif.Spec):
                        "proved (add_accepts_all_partial, job_ids_disjoint_at_most_7: at most 7 jobs); missing: positive entries "
                        "of a row stay pairwise distinct over all histories.  NOTE 7 (not 6) jobs can share a line "
                        "(corpus/C04/seven-jobs-one-line.ops)",
+                       "armed_after_every_history_full (Props/C04Hist.lean: every reachable pattern of the repaired code is armed - "
+                       "jobs first, marker in the last way -, the hypothesis of no_line_ever_skipped / "
+                       "decode_is_history_independent): proved for decode calls (armed_preserved_by_decodes, "
+                       "armed_after_every_history_partial) and checked by `decide` on concrete add/remove histories; in general "
+                       "it needs add_accepts_all_full (a failing add_job_to_pattern leaves compacted rows without marker)",
+                       "threshold independence: decode_is_history_independent assumes the slicers' verdict on a frame does not "
+                       "depend on bs->thresh left behind by earlier lines/frames (ThreshFree); for io-sim's nominal waveforms this "
+                       "is sampled by the long-history generator, not proved",
                        "ids_within_services_full as literally stated in Props/C04.lean (no hypothesis): proved with the explicit "
                        "hypothesis that the history did not run into the set_params assertion (ids_within_services)",
                        "waveform_eye_open (io-sim's rendering satisfies the eye-open hypothesis for all rates/offsets/"
                        "formats/payloads): not formalisable here, sampled by the oracle; FALSE in the domains of F65-F70"]
     trusted_base = ["translate/gen_rawdec.py (recognises applied repairs; a wrong flag shows as model~code disagreement)",
+                    "translate/gen_rawdecflags.py (text of the blank-counter branch of decode_pattern and of the cri_end assignments "
+                    "of add_services; an unrecognised form makes the proofs fail, a wrong reading shows in the long-history / "
+                    "window cases of the correspondence check)",
                     "translate/gen_slicer.py + Slicer model of C05 (slicer configuration arithmetic)",
                     "harness/rawdec_harness.c (exact-size heap images and output arrays, guard pattern behind the records)",
                     "io-sim.c as the transmitter of the oracle (its own UB in signal_closed_caption/_vbi_raw_video_image exempted from UBSan)"]
@@ -727,6 +778,166 @@ class C04(verif.Spec):
             cases.append([op(it, L) for L in (T - 2, T - 1, T, T + 1) if 0 <= L <= 255])
         return cases
 
+    # ------------------------------------------------------------------ round 3 generators
+    CLEAN_RATES = (13500000, 14750000, 14318181, 17734475, 27000000, 28636362, 35468950, 15000000, 16000000, 20000000)
+
+    def clean_rate(self, rng, services, fmt, anyrate=False):
+        """a sampling rate at which no known finding applies to `services` (hardware rates first)"""
+        mask = 0
+        for x in services:
+            mask |= x
+        minrate = max(SVC[x]["minrate"] for x in services)
+        cands = [r for r in self.CLEAN_RATES if r >= minrate]
+        if anyrate:
+            rng.shuffle(cands)
+            cands = [int(minrate * (1.1 + 1.5 * rng.random())) for _ in range(3)] + cands
+        cands += [int(minrate * (1.1 + 2.0 * rng.random())) for _ in range(60)]
+        for r in cands:
+            if r >= minrate and not domain_tags(fmt, r, mask):
+                return r
+        raise RuntimeError("no clean rate for 0x%x" % mask)
+
+    @staticmethod
+    def full_geometry(scanning, il=0):
+        """every line any service of the system uses: 6-23 / 318-335 resp. 10-22 / 272-284"""
+        if scanning == 625:
+            return 6, 18, 318, 18
+        return 10, 13, 272, 13
+
+    # service sets of the long histories: every service class, alone and on shared lines
+    LONG_SETS = [(625, (0x3,)), (625, (0x3, 0x18)), (625, (0x18,)), (625, (0x4, 0x1000)), (625, (0x400,)),
+                 (625, (0x2000,)), (625, (0x4000,)), (625, (0x8000,)), (625, (0x1, 0x4, 0x400, 0x8)),
+                 (525, (0x60,)), (525, (0x10000,)), (525, (0x100,)), (525, (0x20000,)), (625, (0x3, 0x4, 0x18, 0x400))]
+
+    def gen_long(self, rng, n, frames=(420, 700)):
+        """ONE decoder object over hundreds of frames: every searched line alternates between blank runs of 1..300
+        frames and runs of signal; the property has no warm-up allowance - every transmitted line is due in every frame
+        in which it is transmitted.  Cheap frames: 8 bit luma, few lines, lowest clean hardware rate."""
+        cases = []
+        order = list(range(len(self.LONG_SETS)))
+        rng.shuffle(order)
+        for k in range(n):
+            scanning, sets = self.LONG_SETS[order[k % len(order)]]
+            ids = sorted({i for s_ in sets for i in SVC if i & s_ == i and SVC[i]["scan"] == scanning and i & s_})
+            # the ids the sender may put on the wire: single-bit ids and the level 2.5 Teletext B id
+            ids = [i for i in ids if i in SVC]
+            if any(s_ == 0x3 for s_ in sets):
+                ids = [i for i in ids if i != 0x1]
+            fmt = 1
+            rate = self.clean_rate(rng, ids, fmt)
+            t0 = min(sig_span(i)[0] for i in ids) - 0.6
+            t1 = max(sig_span(i)[1] for i in ids) + 1.7
+            offset = int(t0 * rate / 1e6)
+            spl = int(t1 * rate / 1e6) + 1 - offset
+            # few lines: the lines of the requested services only (plus a neighbour), both fields
+            lines0 = sorted({l for i in ids if SVC[i]["l0"] for l in (SVC[i]["l0"][1], SVC[i]["l0"][1] - 1)} |
+                            {SVC[i]["l0"][0] for i in ids if SVC[i]["l0"]})
+            if scanning == 625:
+                s0 = min(lines0) if lines0 else 20
+                c0 = (max(lines0) if lines0 else 22) - s0 + 1
+                if c0 > 4:
+                    s0, c0 = max(lines0) - 3, 4
+                    if 0x4 in ids:
+                        s0, c0 = 16, 8      # 16 .. 23
+                s1, c1 = s0 + 313, c0
+            else:
+                s0, c0, s1, c1 = 19, 3, 282, 3
+            il = rng.choice([0, 0, 1])
+            sync = 1
+            sp = Sp(scanning, fmt, rate, spl, offset, s0, c0, s1, c1, il, sync, 0)
+            iface = 2 if k % 3 == 2 else 3
+            mask = 0
+            for s_ in sets:
+                mask |= s_
+            # strict 0 / -1: with a few lines only, strict >= 1 rejects the Teletext systems (their range is not covered)
+            c = [sp.par(iface), "add 0x%x %d" % (mask, rng.choice([0, 0, -1]))]
+            rows = {}
+            for sid in ids:
+                for row in sp.rows_for(sid):
+                    rows.setdefault(row, []).append(sid)
+            # per row: [frames left in the current run, service on the wire or None]
+            st = {}
+            for row in rows:
+                st[row] = [rng.randrange(1, 8), rng.choice(rows[row])] if rng.random() < 0.6 else [self.blank_run(rng), None]
+            nframes = rng.randrange(*frames)
+            for _f in range(nframes):
+                tx = []
+                for row in sorted(rows):
+                    left, sid = st[row]
+                    if left == 0:
+                        if sid is None:
+                            st[row] = [rng.choice([1, 1, 2, 3, 5, 20]), rng.choice(rows[row])]
+                        else:
+                            st[row] = [self.blank_run(rng), None]
+                        left, sid = st[row]
+                    st[row][0] = left - 1
+                    if sid is not None:
+                        tx.append((sid, row, self.payload(rng, sid)))
+                c.append("frame %d 0 %d %s" % (sp.lines(), rng.randrange(1, 1 << 31), " ".join(rec_tok(t) for t in tx)))
+            cases.append([l.rstrip() for l in c])
+        return self.settle(cases)
+
+    @staticmethod
+    def blank_run(rng):
+        k = rng.random()
+        if k < 0.3:
+            return rng.randrange(1, 20)
+        if k < 0.5:
+            return rng.randrange(125, 150)
+        return rng.randrange(1, 301)
+
+    def gen_windows(self, rng, reps):
+        """sampling windows in general position, EVERY service: the window starts anywhere from 0H up to just before the
+        first run-in edge and ends anywhere from just behind the last payload bit up to the end of the line - incl.
+        short windows that start early.  Nominal `frame` ops, both decoder APIs, strict 0/1/2: what add_services accepts
+        and the sender transmits inside the window must be decoded."""
+        cases = []
+        for rep in range(reps):
+            for sid in sorted(SVC):
+                scanning = SVC[sid]["scan"]
+                fmt = 1 if rng.random() < 0.6 else rng.choice(FMTS)
+                rate = self.clean_rate(rng, [sid], fmt, anyrate=rng.random() < 0.5)
+                a, b = sig_span(sid)
+                k = rng.random()
+                if k < 0.2:
+                    start = 0.0
+                elif k < 0.45:
+                    start = rng.random() * 5.0
+                elif k < 0.8:
+                    start = rng.random() * (a - WIN_START)
+                else:
+                    start = a - WIN_START - rng.random() * 0.5
+                offset = int(start * rate / 1e6)
+                k = rng.random()
+                if k < 0.55:
+                    end = b + rng.choice(WIN_END)
+                elif k < 0.8:
+                    end = b + rng.random() * 6.0
+                else:
+                    end = b + rng.random() * (63.9 - b)
+                # last sample instant (offset + spl - 1) / rate >= end
+                spl = int(end * rate / 1e6) + 2 - offset
+                if fmt in (2, 3, 4, 5) and spl % 2:
+                    spl += 1
+                spl = min(spl, 32767, 131068 // bpp_of(fmt))
+                s0, c0, s1, c1 = self.full_geometry(scanning)
+                il = rng.choice([0, 0, 1])
+                sp = Sp(scanning, fmt, rate, spl, offset, s0, c0, s1, c1, il, 1, 0)
+                if not window_contains(sp, sid, 0.0, 0.0):
+                    continue
+                iface = rng.choice([3, 3, 2])
+                req = SVC[sid]["cls"] if rng.random() < 0.3 else sid
+                if domain_tags(fmt, rate, req):
+                    req = sid
+                c = [sp.par(iface), "add 0x%x %d" % (req, rng.choice([0, 1, 2]))]
+                wire = [i for i in SVC if i & req == i and SVC[i]["scan"] == scanning and i != 0x1 or i == sid]
+                wire = [i for i in sorted(set(wire)) if window_contains(sp, i, 0.0, 0.0)]
+                for _f in range(rng.randrange(2, 4)):
+                    tx = self.make_tx(rng, sp, wire, fill=rng.choice([0.4, 0.8, 1.0]))
+                    c.append("frame %d 0 %d %s" % (sp.lines(), rng.randrange(1, 1 << 31), " ".join(rec_tok(t) for t in tx)))
+                cases.append([l.rstrip() for l in c])
+        return self.settle(cases)
+
     def gen_malformed(self, rng, n):
         cases = []
         bad = ["par", "par 625 1 13500000 720 132 7 17 320 17 0 1", "par 625 6 13500000 1440 132 7 17 320 17 0 1 3",
@@ -764,6 +975,8 @@ class C04(verif.Spec):
         cases += self.gen_malformed(rng, 30 if q else 200)
         cases += self.gen_tight(rng, 2 if q else 12)
         cases += self.gen_ties(rng, 24 if q else 200)
+        cases += self.gen_windows(rng, 20 if q else 200)
+        cases += self.gen_long(rng, 28 if q else 280)
         return cases
 
     # ------------------------------------------------------------------ classification / oracle
@@ -774,6 +987,10 @@ class C04(verif.Spec):
         if "decode" in ops:
             return "concrete-decode"
         if "frame" in ops:
+            if len(case) > 150:
+                return "long-history"
+            if any(l.startswith("par ") and (" 6 18 318 18 " in l or " 10 13 272 13 " in l) for l in case):
+                return "window"
             if "remove" in ops:
                 return "history+remove"
             for l in case:
